@@ -17,7 +17,7 @@ NOT decided: equality of the values with the numpy reduction for every shape, re
 """
 import ast
 
-from ..engine import AnalysisError, dotted, iter_stmts, norm, kw, const_str
+from ..engine import AnalysisError, dotted, iter_stmts, norm, kw, const_str, walk_expr
 from ..report import Finding
 from .. import api
 from .c06 import drops_mask
@@ -301,6 +301,32 @@ def run(ctx):
                               'LAY/ROW/COL rewrites the time flags, a variable that lacks those dimensions (files with irregular time flags lose them)'), oid='wrapper:tflag')
     else:
         ctx.ok('R-UNTOUCHED', 'wrapper:tflag', 'src/PseudoNetCDF/cmaqfiles/_ioapi.py ioapi_base.applyAlongDimensions', 'no forced regeneration of TFLAG')
+    # ---- the level edges the wrapper recomputes follow the new layers in their order (no sorting / de-duplication of the edge values)
+    ctx.rule('R-EDGEORDER', 'IOAPI wrapper: the recomputed level edges keep the order and the number of the new layers (not sorted, reversed or made unique)')
+    vst = [st for st in iter_stmts(wf.body) if isinstance(st, ast.Assign) and any(isinstance(t, ast.Attribute) and t.attr == 'VGLVLS' for t in st.targets)]
+    wio = 'src/PseudoNetCDF/cmaqfiles/_ioapi.py ioapi_base.applyAlongDimensions'
+    if not vst:
+        ctx.undec('R-EDGEORDER', 'VGLVLS', wio, 'the wrapper stores no VGLVLS')
+    wenv = dict((st.targets[0].id, st.value) for st in iter_stmts(wf.body) if isinstance(st, ast.Assign) and len(st.targets) == 1 and isinstance(st.targets[0], ast.Name))
+    for st in vst:
+        reorder = None
+        work, seen = [st.value], set()
+        while work:
+            e = work.pop()
+            for n_ in walk_expr(e):
+                if isinstance(n_, ast.Call) and (dotted(n_.func) or norm(n_.func)).split('.')[-1] in ('unique', 'sort', 'sorted', 'set', 'argsort', 'flip', 'flipud', 'reversed', 'union1d'):
+                    reorder = reorder or norm(n_)[:50]
+                if isinstance(n_, ast.Subscript) and isinstance(n_.slice, ast.Slice) and n_.slice.step is not None and norm(n_.slice.step) == '-1':
+                    reorder = reorder or norm(n_)[:50]
+                if isinstance(n_, ast.Name) and n_.id in wenv and n_.id not in seen and n_.id not in ('outf', 'self', 'kwds'):
+                    seen.add(n_.id)
+                    if not (isinstance(wenv[n_.id], ast.Call) and (dotted(wenv[n_.id].func) or '').endswith('applyAlongDimensions')):
+                        work.append(wenv[n_.id])
+        if reorder:
+            ctx.violation(Finding('R-EDGEORDER', 'cmaqfiles/_ioapi.py', 'ioapi_base.applyAlongDimensions', st, 'the level edges are put in an order of their own (%s): for levels that increase upward they come out '
+                                  'reversed, and a function that skips layers leaves more than NLAYS+1 edges' % reorder))
+        else:
+            ctx.ok('R-EDGEORDER', 'VGLVLS', wio, 'edges taken from the bounds of the new layers in layer order')
     # ---- the string forms (reduce_dim / -r): for masked data the masked-array function is chosen before the plain numpy one
     ctx.rule('R-MAFIRST', '_getfunc: for a reducer that is not an array method, masked arrays get numpy.ma.<name> before numpy.<name> is considered')
     gfm = ctx.src.mod('core/_functions.py')
